@@ -7,7 +7,7 @@ if [ "${1:-}" = "quick" ] || [ "${1:-}" = "thorough" ]; then TIER=$1; shift; fi
 cd /verif/seeded || exit 2
 SEEDS="$@"; [ -z "$SEEDS" ] && SEEDS=$(ls)
 for s in $SEEDS; do
-  [ -f "$s/patch.diff" ] || continue
+  [ -f "/verif/seeded/$s/patch.diff" ] || continue
   ID=$(python3 -c "import json;print(json.load(open('/verif/seeded/$s/meta.json'))['property'])")
   cd /repo; git diff --quiet || { echo "repo dirty"; exit 2; }
   git apply "/verif/seeded/$s/patch.diff" || { echo "$s: patch does not apply"; continue; }
